@@ -1,6 +1,6 @@
-/-! Model of `optimalPartition`, `backtracking`, `backward`, `optimalSegmentation`, `findStopsGlobal`'s reward matrix
-(algo/segmentation.py) and of `optimalSimplification` / `simplify`'s modes 4–8 (algo/simplification.py, as of b8f1113:
-parameter and direction forwarded).
+/-! Model of `optimalPartition`, `backtracking`, `backward`, `optimalSegmentation`, `findStopsGlobal`'s reward matrix, the dispatcher
+`findStops` (algo/segmentation.py), of `optimalSimplification` / `simplify`'s modes 4–8 (algo/simplification.py, as of b8f1113:
+parameter and direction forwarded) and of `TrackCollection.simplify` for the free modes (core/track_collection.py).
 
 `optimalPartition` has two forms:
 * the *table* form (`optimalPartition`, run by the driver on arrays: `Model/PartitionArr.lean`) mirrors the Python line by
@@ -15,7 +15,8 @@ callable; `glob_param is None` selects the three-argument call, EVERY other valu
 matrix (in place, loop form, with `findStopsGlobal`'s `break`), `C + C.T`, degenerate track sizes and the exceptions.
 `findStopsGlobal` is modelled from ITS arguments (`findStopsGlobalPy`, last section): the track it works on (`downsampling > 1`:
 the resampled copy), the planimetric `distance2DTo` and the elapsed time read from the observations `(x, y, z, t)`, the three
-tests, the final filter and the identifiers of the stops. `minCircle`, the temporal resampling `track ** n`, the geometry of
+tests, the final filter and the identifiers of the stops. The dispatcher `findStops(…, MODE_STOPS_GLOBAL, verbose)` is `findStopsPy`. `minCircle` (modelled on its own in
+`Model/MinCircle.lean`), the temporal resampling `track ** n`, the geometry of
 `findStopsGlobalForRTK` and the built-in cost functions of `simplify` enter as parameters.
 
 `better a b` is the strict test of the selected direction (`a < b` to minimise, `a > b` to maximise).
@@ -242,6 +243,22 @@ def simplifyFree {γ ω : Type} (zero : α) (obs : List ω) (c : CostFn γ α) (
   else if smode = 8 then some (optimalSimplificationPy zero obs c none 1)
   else none
 
+/-- `TrackCollection.simplify(tolerance, mode)` (core/track_collection.py) for the two "free" modes: `output = self.copy();
+for i in range(len(output)): output[i] = simplify(output[i], tolerance, mode)` — the tracks one after the other, the first
+exception ends the call. -/
+def collectionSimplifyFree {γ ω : Type} (zero : α) (c : CostFn γ α) (smode : Nat) :
+    List (List ω) → Option (Except Err (List (List ω)))
+  | [] => some (.ok [])
+  | t :: ts =>
+    match simplifyFree zero t c smode with
+    | none => none
+    | some (.error e) => some (.error e)
+    | some (.ok r) =>
+      match collectionSimplifyFree zero c smode ts with
+      | none => none
+      | some (.error e) => some (.error e)
+      | some (.ok rs) => some (.ok (r :: rs))
+
 /-! ### stop detection (`findStopsGlobal`) -/
 
 /-- what the row loops of stop detection read from the track and its parameters (geometry and clock not modelled:
@@ -392,5 +409,16 @@ def findStopsGlobalPy (zero one : α) (sq ofNat : Nat → α) (track resampled :
     let p := stopPredTrack zero f circ2 diameter duration
     .ok ((stopsReported zero sq p (stopKeepTrack zero f circA diameter duration) size).map
       (fun ae => (ofNat ae.1 * downsampling, ofNat ae.2 * downsampling, ae.2 + 1 - ae.1)))
+
+/-- a Python `bool` used as a number: `True` is `1`, `False` is `0` -/
+def boolNum (zero one : α) (b : Bool) : α := if b then one else zero
+
+/-- `findStops(track, spatial, temporal, mode, verbose=True)` for `mode == MODE_STOPS_GLOBAL`: the dispatcher calls
+`findStopsGlobal(track, spatial, temporal, verbose)` — positionally, and the fourth parameter of `findStopsGlobal` is
+`downsampling`: the caller's `verbose` is what `findStopsGlobal` receives as `downsampling` (its own `verbose` keeps the
+default). -/
+def findStopsPy (zero one : α) (sq ofNat : Nat → α) (track resampled : List (Fix α))
+    (circ2 circA : Nat → Nat → Option α) (spatial temporal : α) (verbose : Bool) : Except Err (List (α × α × Nat)) :=
+  findStopsGlobalPy zero one sq ofNat track resampled circ2 circA spatial temporal (boolNum zero one verbose)
 end track
 end TV.Partition
